@@ -246,6 +246,15 @@ Ltac enorm :=
   cbn [erase_op n_ver n_val n_old n_att n_cs n_tpc n_acc n_optr n_vptr erase_node erase_req mk_pre mk_abort mk_commit
        r_type r_val r_vptr r_from r_sptr r_ver r_time].
 
+Ltac sc := cbn [option_map n_op n_preok n_cs n_ver n_clock n_tpc n_acc n_val n_old a_ver erase_node erase_op erase_acc r_ver erase_req c_rules cfg ru_promise repaired_rules andb].
+Ltac simple_case x i s :=
+  destruct (get s i) as [x|]; cbn [option_map]; auto; sc;
+  destruct (n_op x); cbn [option_map erase_op]; auto; sc;
+  repeat (match goal with |- context[if ?c then _ else _] => destruct c end; cbn [option_map]; auto);
+  try (destruct (n_cs x); cbn [option_map]; auto;
+       repeat (match goal with |- context[if ?c then _ else _] => destruct c end; cbn [option_map]; auto));
+  f_equal; enorm; reflexivity.
+
 (* the erased effect of a transition is the effect of the same event on the erased state *)
 Lemma effect_erase tr s e : Inv s ->
   option_map erase_eff (effect_of (cfg tr) s e) = option_map erase_eff (effect_of (cfg Local) (erase s) e).
@@ -298,17 +307,34 @@ Proof.
     cbn [n_ver n_op erase_node].
     rewrite <- (count_timeout_erase s i x m j (n_ver x) I Ex Hm).
     rewrite !erase_set_op, erase_node_idem, erase_op_idem. reflexivity.
-  - (* prefinish *)
-    destruct (get s i) as [x|]; cbn; auto. destruct (n_op x); cbn; auto.
-    destruct ((required (nnodes s) <=? List.length yes) || (nnodes s - 1 - List.length no <? required (nnodes s))); cbn; auto.
-    destruct (negb (required (nnodes s) <=? List.length yes) || cs_eqb (n_cs x) AcceptedNew || (true && (r_ver m <? a_ver (n_acc x)))); cbn; auto.
-    destruct (Z.ltb (n_clock x) t); cbn; auto.
-  - destruct (get s i) as [x|]; cbn; auto. destruct (n_op x); cbn; auto.
-    destruct (required (nnodes s) <=? List.length acks); cbn; auto. destruct frompre; reflexivity.
-  - destruct (get s i) as [x|]; cbn; auto. destruct (n_op x); cbn; auto.
-    destruct (n_cs x); cbn; auto; destruct (Z.ltb (n_clock x) t); cbn; auto.
-  - destruct (get s i) as [x|]; cbn; auto. destruct (n_op x); cbn; auto.
-    destruct (n_preok x); cbn; auto. destruct (Z.ltb (n_clock x) t); cbn; auto.
-  - destruct (get s i) as [x|]; cbn; auto. destruct (n_op x); cbn; auto.
-    destruct (required (nnodes s) <=? List.length acks); cbn; auto. destruct (Nat.eqb (n_ver x) ov); reflexivity.
+  - (* prefinish *) simple_case x i s.
+  - simple_case x i s.
+  - simple_case x i s.
+  - simple_case x i s.
+  - simple_case x i s.
 Qed.
+
+Lemma step_erase tr s e : Inv s ->
+  option_map erase (step (cfg tr) s e) = option_map erase (step (cfg Local) (erase s) e).
+Proof.
+  intros I. unfold step. pose proof (effect_erase tr s e I) as H.
+  destruct (effect_of (cfg tr) s e) as [f|]; destruct (effect_of (cfg Local) (erase s) e) as [g|]; cbn [option_map] in *; try discriminate; auto.
+  assert (Hfg : erase_eff f = erase_eff g) by congruence. f_equal.
+  rewrite (erase_apply s f), (erase_apply (erase s) g), erase_idem, Hfg. reflexivity.
+Qed.
+
+Lemma run_erase tr1 tr2 es : forall s1 s2, Inv s1 -> Inv s2 -> erase s1 = erase s2 ->
+  option_map erase (run (cfg tr1) s1 es) = option_map erase (run (cfg tr2) s2 es).
+Proof.
+  induction es as [|e r IH]; intros s1 s2 I1 I2 He; cbn.
+  - f_equal. auto.
+  - pose proof (step_erase tr1 s1 e I1) as H1. pose proof (step_erase tr2 s2 e I2) as H2.
+    rewrite He in H1. rewrite <- H2 in H1.
+    destruct (step (cfg tr1) s1 e) as [a|] eqn:E1; destruct (step (cfg tr2) s2 e) as [b|] eqn:E2; cbn [option_map] in H1; try discriminate; auto.
+    assert (Hab : erase a = erase b) by congruence.
+    apply IH; auto; [eapply (inv_step tr1 s1 a e) | eapply (inv_step tr2 s2 b e)]; eauto.
+Qed.
+
+Lemma transport_lemma n z es :
+  option_map erase (run (cfg Local) (init_state n z) es) = option_map erase (run (cfg Rpc) (init_state n z) es).
+Proof. apply run_erase; auto using inv_init. Qed.
